@@ -373,6 +373,9 @@ func c02Enumerate(tier string, emit func(core.Case)) {
 		body := joinTokens(preTok, tok)
 		emit(&c02Case{Part: "text", Src: "<pre>" + body + "</pre>"})
 		emit(&c02Case{Part: "text", Src: "<div><p>k</p><pre class=\"c\">" + body + "</pre></div>"})
+		// the same content one and two elements below the <pre> (highlighted code)
+		emit(&c02Case{Part: "text", Src: "<pre><code>" + body + "</code></pre>"})
+		emit(&c02Case{Part: "text", Src: "<div><pre><span class=\"l\"><i>" + body + "</i></span>\n</pre></div>"})
 		if !strings.Contains(body, "<b>") && !strings.Contains(body, "<code>") {
 			emit(&c02Case{Part: "text", Src: "<div><textarea>" + body + "</textarea></div>"})
 		}
